@@ -23,7 +23,7 @@
      `assert mod.state is UNPROCESSED` cannot fail.  System.unprocessed_modules is modelled (its `remove(first)`
      raises for a module that was replaced earlier).  _is_c_module is always False. *)
 From Coq Require Import ZArith NArith List Bool.
-From PydoctorVerif Require Import Base.Sexp.
+From PydoctorVerif Require Import Base.Sexp Model.Mro.
 Import ListNotations.
 Local Open Scope N_scope.
 
@@ -386,6 +386,22 @@ Definition post_class (st : id -> obj) (c : id) : id -> obj :=
 Definition post_process (s : state) : state :=
   set_store s (fold_left post_class (map snd (allobj s)) (store s)).
 
+(* ---- the hierarchy that model.compute_mro hands to mro.mro (Model/Mro.v) ----
+   getbases(c) = list(localbases(c)): for b, name in zip(baseobjects, bases): b if it is a Class else the name.
+   cid x is the Mro model's name of object x, ext c k the name of the k-th base of c when it is not resolved. *)
+Fixpoint localbases (cid : id -> cls) (ext : id -> nat -> cls) (c : id) (k : nat) (bs : list (option id)) : list cls :=
+  match bs with
+  | [] => []
+  | Some b :: t => cid b :: localbases cid ext c (S k) t
+  | None :: t => ext c k :: localbases cid ext c (S k) t
+  end.
+Fixpoint ids_below (n : nat) : list id :=
+  match n with O => [] | S m => ids_below m ++ [N.of_nat m] end.
+(* one entry per class object *)
+Definition hier_of (cid : id -> cls) (ext : id -> nat -> cls) (s : state) : hier :=
+  map (fun c => (cid c, localbases cid ext c 0 (obases (store s c))))
+      (filter (fun c => ocls_eqb (ocl (store s c)) CClass) (ids_below (N.to_nat (next s)))).
+
 (* ---- operations ---- *)
 Inductive op :=
 | AddModule (pkg : bool) (n : name) (parent : option id)     (* Module/Package(system, n, parent); _addUnprocessedModule *)
@@ -443,6 +459,7 @@ Definition summary_files (s : state) : list path :=
 
 (* ---- the guards under which the invariant is preserved (executable; Proofs/RegistryProofs.v shows that they
         imply the Prop guards of the theorems) ---- *)
+Definition opt_id_eqb (a : option id) (b : id) : bool := match a with None => false | Some x => N.eqb x b end.
 Definition registered (s : state) (o : id) : bool := existsb (fun e => N.eqb (snd e) o) (allobj s).
 Definition mem_id (x : id) (l : list id) : bool := existsb (N.eqb x) l.
 (* a is o or one of its ancestors *)
@@ -484,9 +501,14 @@ Definition guard_b (s : state) (o : op) : bool :=
       match rget fn (allobj s) with
       | None => true                                                      (* a new name *)
       | Some first =>
-        (* the package wins: nothing changes.  (Replacing a top-level module leaves it in rootobjects --
-           C02_dup_root_refuted; replacing a module inside a package is not covered by the proofs.) *)
-        ocls_eqb (ocl (store s first)) CPackage && negb pkg
+        (* the package wins: nothing changes; or, inside a package, the last wins: the old module must still be
+           unprocessed, with nothing superseded below it.  (Replacing a top-level module
+           leaves it in rootobjects -- C02_dup_root_refuted.) *)
+        (ocls_eqb (ocl (store s first)) CPackage && negb pkg) ||
+        match parent with
+        | None => false
+        | Some q => is_module (ocl (store s first)) && mem_id first (unproc s) && covered_b s first
+        end
       end
     end
   | AddChild c n q k =>
@@ -537,7 +559,11 @@ Fixpoint nodup_paths (l : list path) : bool :=
 Definition method_like (k : N) : bool := N.eqb k K_METHOD || N.eqb k K_CLASS_METHOD || N.eqb k K_STATIC_METHOD.
 Definition opt_path_eqb (a : option path) (b : path) : bool :=
   match a with None => false | Some p => path_eqb p b end.
-Definition opt_id_eqb (a : option id) (b : id) : bool := match a with None => false | Some x => N.eqb x b end.
+
+Fixpoint nmem (n : name) (l : list name) : bool :=
+  match l with [] => false | x :: t => name_eqb x n || nmem n t end.
+Fixpoint nodup_names (l : list name) : bool :=
+  match l with [] => true | x :: t => negb (nmem x t) && nodup_names t end.
 
 Definition check_entry (s : state) (e : path * id) : bool :=
   let (p, o) := e in
@@ -554,7 +580,8 @@ Definition check_entry (s : state) (e : path * id) : bool :=
   end &&
   forallb (fun nc => registered s (snd nc) && opt_id_eqb (oparent (store s (snd nc))) o &&
                      name_eqb (oname (store s (snd nc))) (fst nc)) (ocont ob) &&
-  (if can_contain_imports (ocl ob) then true else match ocont ob with [] => true | _ => false end).
+  (if can_contain_imports (ocl ob) then true else match ocont ob with [] => true | _ => false end) &&
+  nodup_names (map fst (ocont ob)).
 
 Definition inv_check (s : state) : bool :=
   nodup_paths (map fst (allobj s)) &&
@@ -565,7 +592,9 @@ Definition inv_check (s : state) : bool :=
    input  := ( op ... )
      op   := ( 0 pkg name parent? ) | ( 1 cls name parent kind ) | ( 2 o newparent newname ) | ( 3 c ( base? ... ) ) | ( 4 )
      name := ( base ( i ... ) )       x? := () | ( x )       cls: 0 Module 1 Package 2 Class 3 Function 4 Attribute
-   output := ( failed? allobjects objects roots pages inv guarded unprocessed )
+   output := ( failed? allobjects objects roots pages inv guarded unprocessed mros )
+     mros       := for id = 0 .. next-1: ( 0 c ... ) the linearisation (class x is 2x+2, the k-th unresolved base of
+                   class c is 2(1024c+k)+1) | ( 1 ) ValueError | ( 2 ) out of fuel | () not a class
      allobjects := ( ( path id ) ... ) in dict order
      objects    := for id = 0 .. next-1: ( name parent? cls kind ( ( name id ) ... ) ( ( name path ) ... ) ( base? ... ) ( sub ... ) sup )
      pages      := for every allobjects entry: ( id file? )   (file of the page object the entry is documented on)
@@ -587,9 +616,6 @@ Definition op_of_sexp (x : sexp) : op :=
   | _ => PostProcess
   end.
 
-Fixpoint ids_below (n : nat) : list id :=
-  match n with O => [] | S m => ids_below m ++ [N.of_nat m] end.
-
 Definition sexp_of_obj (o : obj) : sexp :=
   L [sexp_of_name (oname o); of_option of_N (oparent o); A (Z_of_ocls (ocl o)); of_N (okind o);
      L (map (fun nc => L [sexp_of_name (fst nc); of_N (snd nc)]) (ocont o));
@@ -602,13 +628,22 @@ Definition page_of (s : state) (o : id) : option path :=
   if own_page (ocl (store s o)) then page_file s o
   else match oparent (store s o) with None => None | Some q => page_file s q end.
 
+Definition wire_cid (x : id) : cls := 2 * x + 2.
+Definition wire_ext (c : id) (k : nat) : cls := 2 * (1024 * c + N.of_nat k) + 1.
 Definition dump (s : state) (failed : option N) (g : bool) : sexp :=
   L [of_option of_N failed;
      L (map (fun e => L [sexp_of_path (fst e); of_N (snd e)]) (allobj s));
      L (map (fun i => sexp_of_obj (store s i)) (ids_below (N.to_nat (next s))));
      L (map of_N (roots s));
      L (map (fun e => L [of_N (snd e); of_option sexp_of_path (page_of s (snd e))]) (allobj s));
-     of_bool (inv_check s); of_bool g; L (map of_N (unproc s))].
+     of_bool (inv_check s); of_bool g; L (map of_N (unproc s));
+     L (map (fun i => if ocls_eqb (ocl (store s i)) CClass
+                      then match mro (mro_fuel (hier_of wire_cid wire_ext s)) (hier_of wire_cid wire_ext s) (wire_cid i) with
+                           | MOk l => L (A 0 :: map of_N l)
+                           | MValueError => L [A 1]
+                           | MOutOfFuel => L [A 2]
+                           end
+                      else L []) (ids_below (N.to_nat (next s))))].
 
 Definition run (x : sexp) : sexp :=
   let ops := map op_of_sexp (to_list x) in
